@@ -25,7 +25,7 @@ LEVEL_TEXT = ('Proved in Lean 4: in the model of the generator loop a blank line
               'correspondence (including the negative family where the paragraph must split); it is not yet a theorem.')
 LEVEL_NOTE = ('Trusted: Lean kernel; axioms propext, Classical.choice, Quot.sound only for the registered theorems; the comparison clauses rest on specification evaluation + correspondence.')
 
-REPL = ['', ' ', '   ', '\t', ' \t ']
+REPL = ['', ' ', '   ', '\t', ' \t ', '\x0c', '\x0b', '\xa0', '\u3000', ' \x0c ', '\u2028', '\x85', '\x1c', '\u2003\u200a']
 
 
 def doc(rng):
